@@ -2,15 +2,33 @@
 (* Stage (A) instance of AdtLayout: NK = 3 MCIN entries / auto MCNKs instead of 256, user tiles   *)
 (* with 2 MCNKs, every subset of the optional top-level kinds x 6 versions (inadmissible ones end *)
 (* in BuildReject), every subset of {MCRF, MCLQ, MCCV} as optional sub-chunks, two rebuild rounds.*)
-(* MC_AdtLayout.cfg       : the code (all named deviations on)                                   *)
-(* MC_AdtLayout_ideal.cfg : the format (no deviation): strict no-growth, MCIN size incl. header  *)
-(* MC_AdtLayout_mutant.cfg: MhdrFileRelative = TRUE, must violate MhdrPointsAtNamed (run by hand) *)
+(* MC_AdtLayout.cfg        : the code as it is after the round-1 fix commits (deviations Pad8 and  *)
+(*                           MtxfAlways only) -- the strict invariants below hold                  *)
+(* MC_AdtLayout_ideal.cfg  : the format (no deviation at all)                                      *)
+(* MC_AdtLayout_legacy.cfg : the code before the fixes (all named deviations): the tolerant        *)
+(*                           invariants of AdtLayout hold, every action incl. ParseFail is covered *)
+(* MC_AdtLayout_dev<Name>.cfg (hand-run, notes/C14.md): current code + ONE repaired deviation       *)
+(*                           switched back on; each violates the strict invariant named there       *)
+(* MC_AdtLayout_mutant.cfg : MhdrFileRelative = TRUE, must violate MhdrPointsAtNamed (hand-run)     *)
 EXTENDS AdtLayout
-CodeDeviations == {"Pad8", "McinExcl", "MtxfToEof", "RefsTriple", "InjectMfbo", "MclqIncl", "MtxfAlways"}
-NoDeviations   == {}
-\* without deviations no rebuilt file is longer than its predecessor (the first rebuild may shrink when the
-\* detected version cannot carry a chunk: blend mesh without MTXP), and from the second rebuild on the
-\* length is a fixpoint
-StrictNoGrowth == Deviations = {} => \A j \in 1..(Len(alens) - 1) :
-                      alens[j + 1] <= alens[j] /\ (j >= 2 => alens[j + 1] = alens[j])
+CodeDeviations   == {"Pad8", "MtxfAlways"}
+LegacyDeviations == {"Pad8", "McinExcl", "MtxfToEof", "RefsTriple", "InjectMfbo", "MclqIncl", "MtxfAlways"}
+NoDeviations     == {}
+DevMcinExcl   == CodeDeviations \cup {"McinExcl"}
+DevMtxfToEof  == CodeDeviations \cup {"MtxfToEof"}
+DevRefsTriple == CodeDeviations \cup {"RefsTriple"}
+DevInjectMfbo == CodeDeviations \cup {"InjectMfbo"}
+DevMclqIncl   == CodeDeviations \cup {"MclqIncl"}
+
+\* ---- strict invariants (do not consult Deviations): what the repaired code and the format satisfy
+\* no rebuilt file is longer than its predecessor (the first rebuild may shrink when the detected version
+\* cannot carry a chunk: blend mesh without MTXP) and from the second rebuild on the length is a fixpoint
+StrictNoGrowth == \A j \in 1..(Len(alens) - 1) : alens[j + 1] <= alens[j] /\ (j >= 2 => alens[j + 1] = alens[j])
+\* MCIN size = chunk size including its header (docs/adt.md)
+StrictMcinSize == Walked => \A j \in 1..NK : McinSizeDelta(Observed, j) = 0
+\* the parser accepts every file the serializer produced
+ParseNeverFails == apc # "parsefail"
+\* parse reports exactly the sub-chunks that were written; a rebuild carries exactly the parsed optional kinds
+ParseKeepsSubs == apc \in {"rebuild", "done"} => aparse.subs = SubsOf
+RebuildKeepsOpts == (around > 0 /\ apc = "MVER") => aopts = aparse.opts
 =============================================================================
